@@ -850,6 +850,8 @@ pub fn pool_items() -> Vec<XS> {
         XS::Bin(BOp::Add, b(XS::Col("a")), b(XS::Val(iv(101)))),
         XS::Case(b(XS::Bin(BOp::Gt, b(XS::Col("a")), b(XS::Val(iv(1111))))), b(XS::Val(iv(112))), b(XS::Val(iv(113)))),
         XS::Func(FuncK::Max, vec![XS::Col("b")]),
+        // a text value whose characters the escapers treat specially (no quote, no backslash): shows in the result rows
+        XS::Val(V::Str("l1\nl2\t\"q\"".into())),
         XS::CountStar,
         XS::CustAdd(iv(121), iv(122)),
         XS::CustQuoted(iv(181)),
@@ -868,6 +870,8 @@ pub fn pool_bool() -> Vec<XS> {
     vec![
         XS::Bin(BOp::Gt, b(XS::Col("a")), b(XS::Val(iv(1001)))),
         XS::In(b(XS::Col("b")), vec![iv(100), iv(5500), iv(1013)], false),
+        // text with characters the escapers treat specially but neither a quote nor a backslash
+        XS::Bin(BOp::Ne, b(XS::Col("s")), b(XS::Val(V::Str("l1\nl2\t\"q\"".into())))),
         XS::Between(b(XS::Col("a")), iv(1021), iv(2621)),
         XS::Like(b(XS::Col("s")), "x%".into(), None),
         XS::Like(b(XS::Col("s")), "x\\%".into(), Some('\\')),
